@@ -133,6 +133,18 @@ def one_dataset(obs, rng, conv, kw, spec):
             same = len(again) == len(polygons) and all((a is None and b is None) or (a is not None and b is not None and a.equals_exact(b, 0))
                                                        for a, b in zip(again, polygons))
             obs.expect(same, 'a second convention instance over the same dataset builds identical polygons', mech='second-instance-differs')
+    # the documented explicit form for files without CF attributes: Convention(dataset, latitude=<name>, longitude=<name>)
+    if conv in ('cf1d', 'cf2d') and rng.random() < 0.4:
+        with quiet_warnings():
+            named = obs.call('%s(dataset, latitude=, longitude=)' % type(ems).__name__,
+                             lambda: type(ems)(ds, latitude=e['lat_name'], longitude=e['lon_name']))
+            again = obs.call('polygons (explicit coordinate names)', lambda: named.polygons) if not isinstance(named, Failed) else named
+        if not isinstance(again, Failed):
+            obs.cls('explicit-coordinate-names-compared')
+            same = len(again) == len(polygons) and all((a is None and b is None) or (a is not None and b is not None and a.equals_exact(b, 0))
+                                                       for a, b in zip(again, polygons))
+            obs.expect(same, 'a convention constructed with explicit latitude / longitude names builds the same polygons as autodetection',
+                       lambda: {'latitude': e['lat_name'], 'longitude': e['lon_name']}, mech='explicit-names-differ')
     if not invalid and not model.derived_geometry:
         obs.expect(not messages, 'no InvalidPolygonWarning without an invalid cell', lambda: {'warnings': messages})
     # ---- extent -------------------------------------------------------------------------------------------
